@@ -1,7 +1,7 @@
 SPECIFICATION Spec
 CONSTANTS
   ResetOnSkip = TRUE
-  MaxLen = 4
-  Alpha <- AlphaThorough
+  MaxLen = 5
+  Alpha <- AlphaQuick
   Export = TRUE
 INVARIANTS PropsOK TicksAsDocumented RunningIsDirect ExportInv
